@@ -138,6 +138,9 @@ pub struct VmConfig {
     pub tpinning_roots_pct: u8,
     /// Final forced exhaustive GCs before the end-of-run checks.
     pub final_gcs: u8,
+    /// This run deliberately exercises a combination listed in known_findings.jsonl.
+    #[serde(default)]
+    pub kf_probe: bool,
 }
 
 impl Default for VmConfig {
@@ -164,6 +167,7 @@ impl Default for VmConfig {
             pinning_roots_pct: 0,
             tpinning_roots_pct: 0,
             final_gcs: 1,
+            kf_probe: false,
         }
     }
 }
